@@ -125,6 +125,7 @@ type Spelling struct {
 	Gaps    []int  // len n+1 (cycled/zero if shorter): 0 nothing, 1 empty line, 2 whitespace-only line, 3 / 4 runs of two / three blank lines
 	CRLF    bool
 	NoFinal bool // no newline after the last line
+	Compact bool // list items written without the blank after the bullet ("-name"): the text is everything after the bullet
 }
 
 var Canonical = Spelling{Unit: "  ", Bullets: []byte{'-'}}
@@ -174,14 +175,18 @@ func Spell(d []int, names []string, sp Spelling) string {
 			rootNo++
 			underHeading = sp.Heading && rootNo > sp.ListRootsFirst
 		}
+		blank := " "
+		if sp.Compact {
+			blank = ""
+		}
 		if underHeading {
 			if lv == 1 {
 				lines = append(lines, "# "+names[i])
 			} else {
-				lines = append(lines, strings.Repeat(sp.Unit, lv-2)+string(b)+" "+names[i])
+				lines = append(lines, strings.Repeat(sp.Unit, lv-2)+string(b)+blank+names[i])
 			}
 		} else {
-			lines = append(lines, strings.Repeat(sp.Unit, lv-1)+string(b)+" "+names[i])
+			lines = append(lines, strings.Repeat(sp.Unit, lv-1)+string(b)+blank+names[i])
 		}
 	}
 	gap(len(d))
